@@ -105,12 +105,13 @@ type Spec[C any] struct {
 	Level     string // evidence level (model_checking)
 	Rule      string // how cases are enumerated and what makes one non-trivial
 	Assume    []string
-	Bounds    func(tier string) map[string]any   // stated bounds, copied into the evidence
-	Gen       func(tier string, emit func(C))    // deterministic, complete enumeration of the bounded space
-	Run       func(c C, st *Stats) []Viol        // run one case on the real code against the oracle
+	Bounds    func(tier string) map[string]any      // stated bounds, copied into the evidence
+	Gen       func(tier string, emit func(C))       // deterministic, complete enumeration of the bounded space
+	Run       func(c C, st *Stats) []Viol           // run one case on the real code against the oracle
 	Guard     func(tier string, st *Stats) []string // vacuity guards: reasons why the run is not a pass of substance
 	BudgetSec func(tier string) int
 	Batch     int
+	Workers   int // >0: fixed worker count (1 for checks that touch process-global state of rux)
 	// StateGraph is true when States/Transitions are real state-graph counts.
 	StateGraph bool
 }
@@ -225,6 +226,9 @@ func Main[C any](s Spec[C], args []string) int {
 	}
 	seed, _ := strconv.ParseInt(os.Getenv("VERIF_SEED"), 10, 64)
 	nw := *workers
+	if s.Workers > 0 {
+		nw = s.Workers
+	}
 	if nw <= 0 {
 		nw = runtime.NumCPU()
 		if nw > 16 {
